@@ -14,6 +14,7 @@ type EngProfile struct {
 	Faults      bool // enumerate failing storage-call positions
 	DepthGrid   bool // run every (r, g, w) of a grid
 	NoNeg       bool
+	OtherNet    bool // a second network on the same database holds other tuples (C06)
 	Conforming  bool // stores conform to the declared types (tuples only on related relations, subjects per type)
 }
 
